@@ -80,7 +80,7 @@ func GenFloatLit(r *rand.Rand) *Literal {
 }
 
 var strPieces = []string{"TYPE", "NAME", "", "a", "ab", "x", "hello", " ", "  ", "\t", "#", ";", "(", ")", "{", "}", "é", "漢字", "😀", "\u0085", "\u00a0", "\r", "\v", "\f",
-	"\"", "\\", "\n", "'", "=", "# not a comment", "var", "0", "1", "-1", "1.5", "true", "nil", "\x00", "\x7f", "%d", "%s"}
+	"\"", "\\", "\n", "'", "=", "# not a comment", "var", "0", "1", "-1", "1.5", "true", "nil", "\x00", "\x7f", "%d", "%s", "\ufffd", "\ufeff", "\u2028"}
 
 // GenStrValue draws a string value (valid UTF-8).
 func GenStrValue(r *rand.Rand) string {
